@@ -194,6 +194,75 @@ fn record(cell: &Cell, rep: &mut Report) {
     unreadable_copy_cases(cell, &run, rep);
 }
 
+/// Copies of very different sizes: the library's byte-equality checkers must reject a first copy
+/// that is a strict prefix of a later one (empty, or cut at a multiple of any plausible chunk size),
+/// and the reverse, and accept identical copies of every size.
+fn size_cases(shard: Shard, rep: &mut Report) {
+    use crate::ops::{Checker, Dirs, Front, Op, Pop, StackCfg};
+    use crate::world::Scratch;
+    let full: Vec<u8> = (0..(131072 + 5)).map(|i| (i % 251) as u8).collect();
+    let cuts = [0usize, 1, 4096, 65536, 131072, 131072 + 4];
+    let mut no = 0u64;
+    for &cut in &cuts {
+        for reverse in [false, true] {
+            for writer in [false, true] {
+                for checker in [Checker::ByteEq, Checker::Panicking, Checker::Counting] {
+                    for opk in 0..2u8 {
+                        no += 1;
+                        if !shard.mine(no) {
+                            continue;
+                        }
+                        crate::run::reset_env();
+                        let sc = Scratch::new();
+                        let dirs = Dirs::under(&sc.root, 2);
+                        let (first, later): (&[u8], &[u8]) = if reverse { (&full[..], &full[..cut]) } else { (&full[..cut], &full[..]) };
+                        let old = crate::run::base_time_ns() as i128 - 86_400_000_000_000;
+                        let first_dir = if writer { dirs.write.clone() } else { dirs.reads[0].clone() };
+                        crate::world::plant(&first_dir.join("key"), first, 0o444, old - 120_000_000_000, old);
+                        crate::world::plant(&dirs.reads[1].join("key"), later, 0o444, old - 120_000_000_000, old);
+                        let cfg = StackCfg {
+                            writer: if writer { Some((Front::Plain, 1 << 40)) } else { None },
+                            readers: vec![Front::Plain, Front::Plain],
+                            checker,
+                            auto_sync: true,
+                        };
+                        let cache = crate::ops::build(&cfg, &dirs, None);
+                        let k = crate::ops::K::new("key", 1, 2);
+                        let op = if opk == 0 { Op::GetNoRead(k) } else { Op::Ensure(k, Pop::NotFound) };
+                        let (r, trace) = crate::run::as_participant(0, 0, || crate::ops::exec(&cache, &dirs, &op, &Default::default()));
+                        rep.evaluations += 1;
+                        rep.states += 1;
+                        rep.traces += 1;
+                        rep.transitions += trace.len() as u64;
+                        rep.count("size_cases", 1);
+                        let res = match r {
+                            Ok(o) => o.res,
+                            Err(p) => Res::Panic(p),
+                        };
+                        let accepted = matches!(res, Res::Hit(_) | Res::HitUnread);
+                        let identical = first == later;
+                        let bad = if identical { !accepted } else { accepted };
+                        if bad {
+                            rep.violation(
+                                if identical { "checker:identical-copies-rejected" } else { "checker:different-sizes-accepted" },
+                                format!(
+                                    "first copy of {} bytes, later copy of {} bytes (the shorter is a prefix of the longer), checker {:?}, {}: returned {}",
+                                    first.len(),
+                                    later.len(),
+                                    checker,
+                                    op.label(),
+                                    res.label()
+                                ),
+                                serde_json::json!({"size_case": true, "cut": cut, "reverse": reverse, "writer": writer}),
+                            );
+                        }
+                    }
+                }
+            }
+        }
+    }
+}
+
 pub fn run(_tier: Tier, shard: Shard, rep: &mut Report) {
     rep.rule = "full matrix: every stack of 1-3 levels (write side optional, each level plain or sharded(3)) x per-level content \
         {nothing, A, B} (sharded: primary or secondary shard) x {get, ensure, get_or_update x {Accept, Promote, Replace}} x populate \
@@ -201,7 +270,8 @@ pub fn run(_tier: Tier, shard: Shard, rep: &mut Report) {
         oracle: success iff all present copies (and the populated value when compared) are identical, every redundant copy's inode \
         appears in the checker's invocation log, errors/panics reach the caller, no checker => later levels not opened and populate \
         not called on an accepted hit; for every successful checker cell, each redundant copy in a read-only level is made \
-        unreadable in turn (its open fails with EACCES / EIO): the lookup must then not succeed. Non-trivial = checker configured and >= 2 copies present."
+        unreadable in turn (its open fails with EACCES / EIO): the lookup must then not succeed; copies of very different sizes (first copy empty or cut at 1, 4096, 65536, 131072 \
+        bytes of a 131077-byte value, and the reverse) through the library's own checkers. Non-trivial = checker configured and >= 2 copies present."
         .into();
     rep.assumptions = vec!["checker invocations are identified by the (dev, inode) of both file arguments".into()];
     let all = cells();
@@ -215,9 +285,14 @@ pub fn run(_tier: Tier, shard: Shard, rep: &mut Report) {
         }
     }
     rep.fact("cells_total", serde_json::json!(all.len()));
+    size_cases(shard, rep);
 }
 
 pub fn replay(case: &Value, rep: &mut Report) {
+    if case.get("size_case").is_some() {
+        size_cases(Shard { index: 0, count: 1 }, rep);
+        return;
+    }
     let cell = case.get("cell").unwrap_or(case);
     record(&Cell::from_json(cell), rep);
 }
